@@ -48,6 +48,7 @@ from automata.fa.dfa import DFA
 from harness import gen
 from harness import dfa_query_lib as L
 from harness import dfa_query_lib3 as L3
+from harness import dfa_history_lib as H
 from harness.common import guarded as case_guard
 from harness.common import Ctx, InfraError, Toks, call, enc_dfa, toks
 
@@ -64,7 +65,10 @@ RULE = ("cases = (valid DFA, start string or None, strict, key (None / int- / tu
         "direction / window / wrapper / ranking changed between consecutive calls, one shared key callable re-ranked "
         "between calls, object built under the default options or under allow_mutable_automata=True from plain "
         "containers): every ordering of the alphabet in turn and written-out successor loops on 5 corpus DFAs, random "
-        "chains on shaped random DFAs, each answer judged by the sorted filter with the ranking of that moment")
+        "chains on shaped random DFAs, each answer judged by the sorted filter with the ranking of that moment; round 4: "
+        "the same chains on an object DERIVED (complement / ~ / copy / to_complete / to_partial / minify / boolean "
+        "operations) from a source that was queried before (isempty / isfinite / lengths / cardinality / iteration / "
+        "counting / successor searches), judged on the derived object's own definition")
 F13_KEY = "C14:start-string-with-foreign-symbol"
 F14_KEY = "C14:empty-alphabet"
 
@@ -915,6 +919,147 @@ def chain_family(ctx: Ctx):
         check_chain(ctx, d, mode, rng.choice(L3.KEY_STYLES), rand_chain(rng, d, orc), "random", orc)
 
 
+# ------------------------------------------------------------------ round 4: chains on objects DERIVED from a queried object
+# The source object is asked queries first (the memoised ones — isempty / isfinite / minimum / maximum_word_length /
+# cardinality / iteration — and successor searches; answers not judged here: C13 / the chain family own them), THEN a
+# new DFA is made from it by a library operation (H.DERIVE), and a chain of successor-search calls is made on the
+# DERIVED object, every answer judged by the sorted filter of the window set of the derived object's OWN definition
+# (a twin built from its states / transitions / initial / final states).  A derived object that inherits its
+# parent's memo tables (finiteness, co-accessible states, word caches) answers for the wrong language.
+PRE_KINDS = ["empty", "finite", "min", "max", "card", "len", "iter", "count", "words", "succ", "pred", "succs", "preds"]
+
+
+def run_derived_chain(src_ref: DFA, other_ref, case: dict):
+    """Returns dict(skipped=bool, derive_error=..., obs=[...], bad=[(index, message)], dref=twin)."""
+    out = dict(skipped=False, derive_error=None, obs=[], bad=[], dref=None)
+    keep = []
+    src = src_ref.copy()
+    other = other_ref.copy() if other_ref is not None else None
+    for s_ in case["pre"]:
+        H.exec_other(src, s_, keep)
+    d = call(lambda: H.derive(case["derive"], src, other))
+    if d[0] == "err":
+        out["derive_error"] = d[1]
+        return out
+    D = d[1]
+    dref = H.twin_of(D)
+    out["dref"] = dref
+    if not dref.input_symbols:
+        out["skipped"] = True
+        return out
+    orc = ChainOracle(dref)
+    if not orc.feasible():
+        out["skipped"] = True
+        return out
+    shared = L3.SharedKey(case["keystyle"])
+    for i, p in enumerate(case["chain"]):
+        if not chain_step_in_domain(dref, p, orc.shape):
+            out["obs"].append(None)
+            continue
+        got = L.guarded(lambda: chain_call_raw(D, p, shared), CHAIN_TIMEOUT_S)
+        out["obs"].append(got)
+        exp = orc.expected(p)
+        if got != exp:
+            shown = "no answer within %d s" % CHAIN_TIMEOUT_S if got == ("err", "_Timeout") else f"= {str(got)[:160]}"
+            out["bad"].append((i, f"{shown}, the sorted filter of the window set of the derived object gives {str(exp)[:160]}"))
+            break
+    return out
+
+
+def minimise_derived_chain(src_ref, other_ref, case: dict, index: int):
+    import time
+    t0 = time.time()
+    cur = dict(case, chain=[dict(p) for p in case["chain"][: index + 1]], pre=list(case["pre"]))
+
+    def still(c):
+        b = run_derived_chain(src_ref, other_ref, c)["bad"]
+        return bool(b) and b[0][0] == len(c["chain"]) - 1
+    if not still(cur):
+        return cur
+    for name in ("chain", "pre"):
+        j = len(cur[name]) - (2 if name == "chain" else 1)
+        while j >= 0 and time.time() - t0 < MINIMISE_BUDGET_S:
+            cand = dict(cur, **{name: cur[name][:j] + cur[name][j + 1:]})
+            if still(cand):
+                cur = cand
+            j -= 1
+    return cur
+
+
+@case_guard
+def check_derived_chain(ctx: Ctx, src_ref: DFA, other_ref, case: dict, origin: str):
+    if hanging(ctx):
+        return
+    out = run_derived_chain(src_ref, other_ref, case)
+    ctx.stat(f"derived_chain:{origin}")
+    ctx.stat("derived_chain_by:" + case["derive"])
+    if out["derive_error"]:
+        ctx.stat("derived_chain:derivation_raised")
+        ctx.corr_diff("DERIVE", dict(automaton=repr(src_ref), other=repr(other_ref), case=case),
+                      f"{case['derive']} raised {out['derive_error']}", "a DFA (C04/C05 own the operation)")
+        return
+    if out["skipped"]:
+        ctx.stat("derived_chain:skipped_empty_alphabet_or_too_large")
+        return
+    some_output = False
+    for p, got in zip(case["chain"], out["obs"]):
+        if got is None:
+            continue
+        ctx.case(None)
+        ctx.stat(f"derived_chain_call:{p['call']}")
+        if got[0] == "ok" and got[1]:
+            some_output = True
+    ctx.case(("derived_chain", repr(src_ref), repr(other_ref), json.dumps(case, sort_keys=True))
+             if len(out["dref"].states) >= 2 and some_output else None)
+    if out["bad"]:
+        i, msg = out["bad"][0]
+        small = minimise_derived_chain(src_ref, other_ref, case, i)
+        b = run_derived_chain(src_ref, other_ref, small)["bad"]
+        if not b:
+            small, b = case, out["bad"]
+        i, msg = b[0]
+        pre = "; ".join(("d." + H.show_other(x)) for x in small["pre"])
+        hist = "; ".join(show_chain_step(p) for p in small["chain"][:i])
+        what = (f"{show_chain_step(small['chain'][i])} asked of D {msg} — history: "
+                + (f"queried the source d: {pre}; then " if pre else "")
+                + f"D = {case['derive']} (d = the source" + (", other = a second DFA)" if other_ref is not None else ")")
+                + (f"; earlier calls on D: {hist}" if hist else ""))
+        ctx.prop_fail(what, dict(automaton=repr(src_ref),
+                                 params=dict(derived=dict(other=(repr(other_ref) if other_ref is not None else None), case=small)),
+                                 what=what), None)
+
+
+def derived_chain_family(ctx: Ctx, n_random: int):
+    rng = ctx.rng
+    n_bad = 0
+    for _ in range(n_random):
+        if hanging(ctx) or n_bad >= 3:
+            return
+        src = gen.rand_dfa(rng, 5, partial=False) if rng.random() < 0.5 else L.shaped_dfa(rng, 5)[0]
+        if not src.input_symbols:
+            continue
+        name = rng.choice(H.DERIVE_NAMES)
+        other = gen.rand_dfa(rng, 3, sorted(src.input_symbols)) if H.DERIVE[name][0] else None
+        scratch = call(lambda: H.derive(name, src.copy(), other))
+        if scratch[0] == "err":
+            ctx.stat("derived_chain:not_generated")
+            continue
+        dref = H.twin_of(scratch[1])
+        orc = ChainOracle(dref)
+        if not orc.feasible():
+            ctx.stat("derived_chain:skipped_empty_alphabet_or_too_large")
+            continue
+        chain = rand_chain(rng, dref, orc)
+        if not chain:
+            continue
+        pre = [H.rand_other(rng, src, PRE_KINDS) for _ in range(rng.randint(1, 4))]
+        if not any(x["q"] in ("empty", "finite", "min", "max", "card", "len", "iter") for x in pre):
+            pre.append(dict(q=rng.choice(["finite", "max", "len"])))
+        before = len([f for f in ctx.prop_fails if f["key"] is None])
+        check_derived_chain(ctx, src, other, dict(pre=pre, derive=name, keystyle=rng.choice(L3.KEY_STYLES), chain=chain), "random")
+        n_bad += len([f for f in ctx.prop_fails if f["key"] is None]) - before
+
+
 # ------------------------------------------------------------------ corpus
 def corpus():
     a = {"a"}
@@ -1003,6 +1148,7 @@ def run(ctx: Ctx):
             p["keymode"] = "none"
         check_case(ctx, d, enc, sy, L.language_shape(d), p, "corpus")
     chain_family(ctx)
+    derived_chain_family(ctx, ctx.budget(160, 3500))
     finding_probes(ctx)
     # ---- bounded-exhaustive
     thorough = ctx.thorough()
@@ -1085,6 +1231,21 @@ def replay(ctx: Ctx, path: str) -> int:
     rp = data.get("replay", data)
     d = eval(rp["automaton"], {"DFA": DFA, "frozenset": frozenset})
     p = rp["params"]
+    if "derived" in p:
+        dp = p["derived"]
+        other = eval(dp["other"], {"DFA": DFA, "frozenset": frozenset}) if dp.get("other") else None
+        out = run_derived_chain(d, other, dp["case"])
+        if out["bad"] or out["derive_error"]:
+            print(f"VIOLATION property=C14 replay={path}")
+            if out["bad"]:
+                i, msg = out["bad"][0]
+                print(f"  {show_chain_step(dp['case']['chain'][i])} asked of D = {dp['case']['derive']} {msg} — call #{i + 1} "
+                      f"of the recorded chain on the derived object")
+            else:
+                print(f"  {dp['case']['derive']} raised {out['derive_error']}")
+            return 1
+        print("replay: property holds on this input now")
+        return 0
     if "chain" in p:
         obs, bad = run_chain(d, p["mode"], p["keystyle"], p["chain"])
         if bad:
